@@ -312,9 +312,11 @@ def put_model(mjm: mujoco.MjModel, batch_sizes: dict[str, int] | None = None) ->
     (mjm.opt.disableflags, types.DisableBit, mujoco.mjtDisableBit),
     (mjm.opt.enableflags, types.EnableBit, mujoco.mjtEnableBit),
   ):
-    unsupported = field & ~np.bitwise_or.reduce(field_type)
+    unsupported = int(field) & ~int(np.bitwise_or.reduce(field_type))
     if unsupported:
-      raise NotImplementedError(f"{mj_type(unsupported).name} is unsupported.")
+      # several unsupported bits may be set at once: mj_type(unsupported) only exists for single members
+      names = [n for n, b in mj_type.__members__.items() if not n.startswith("mjN") and int(b) & unsupported]
+      raise NotImplementedError(f"{' | '.join(names) or hex(unsupported)} is unsupported.")
 
   if (mjm.opt.enableflags & mujoco.mjtEnableBit.mjENBL_SLEEP) and (mjm.eq_type == mujoco.mjtEq.mjEQ_FLEX).any():
     raise NotImplementedError("Flex equality constraints are not supported with sleeping enabled.")
